@@ -502,7 +502,9 @@ impl<F: Fam> Ctx<F> {
             let mut taken = 0usize;
             while taken < take_n {
                 let sh = df.size_hint();
-                ic!(errs, sh.0 == 0 && sh.1.map_or(false, |u| u <= n), "drain_filter size_hint {:?} with {} elements", sh, n);
+                // the upper bound may not promise fewer items than are still to come
+                ic!(errs, sh.0 <= matching.saturating_sub(taken) && sh.1.map_or(false, |u| u <= n && u >= matching.saturating_sub(taken)),
+                    "drain_filter size_hint {:?} with {} elements, {} matching, {} yielded", sh, n, matching, taken);
                 match df.next() {
                     Some((k, v)) => {
                         k.check("drain_filter item");
